@@ -22,7 +22,7 @@ PREFIX = "C41"
 CASE_TYPE = "C41_case"
 HARNESS = "c41"
 KNOWN = {1: "C41-bounds-dropped", 2: "C41-annotation-first-declarator-only",
-         3: "C41-array-dimensions-dropped", 4: "C41-split-attributes"}
+         3: "C41-array-dimensions-dropped", 4: "C41-split-attributes", 5: "C41-id-ignored-unless-mutable"}
 RULE = ("a case is an IDL specification (modules, structs with annotated members, enums, unions, typedefs, "
         "constants, forward declarations, #define/#ifdef/#ifndef gating) printed from a random syntax tree of the "
         "supported subset plus boundary trees (reserved words as identifiers, constructs the generator answers "
@@ -1132,7 +1132,7 @@ def one_spec(r, override=None):
 
 
 def gen(r, tier):
-    n = {"quick": 700, "search": 3000, "thorough": 12000}[tier]
+    n = {"quick": 450, "search": 3000, "thorough": 12000}[tier]
     cases = []
     for _ in range(n):
         items = one_spec(r)
@@ -1140,6 +1140,20 @@ def gen(r, tier):
         cases.append(("spec", items, idl_text(case, r)))
     for i, t in enumerate(BROKEN):
         cases.append(("broken", i, t))
+    # the reserved-word rule, systematically: every keyword in a random case spelling is rejected as an
+    # identifier, a keyword with a suffix or prefix is accepted
+    for i, w in enumerate(IDL_KEYWORDS):
+        sp = r.choice([w, w.capitalize(), w.upper()])
+        pos = r.randint(0, 3)
+        name = sp if r.random() < 0.75 else r.choice([sp + "_", sp + "1", "_" + sp, "x" + sp])
+        if name in RUST_RESERVED:
+            continue
+        d = [("struct", [], name, None, [([], ("prim", "PI32"), [("s", "a")])]),
+             ("struct", [], "S%d" % i, None, [([], ("prim", "PI32"), [("s", name)])]),
+             ("enum", [], "E%d" % i, [([], "A"), ([], name)]),
+             ("module", name, [("const", ("prim", "PI32"), "K", "1")])][pos]
+        items = [("def", d)]
+        cases.append(("spec", items, idl_text(("spec", items), r)))
     return cases
 
 
@@ -1404,23 +1418,29 @@ COMPILE_FINDING = "C41-generated-code-does-not-compile"
 CRATE = os.path.join(CACHE, "c41gen", "crate")
 
 
-def cargo_check_batch(sources, timeout=1500):
-    """sources: list of generated Rust texts.  Returns {index: [error lines]} for those that rustc rejects,
-    or a string when cargo itself could not run."""
+def write_crate(sources, main_body="fn main() {}\n"):
     shutil.rmtree(os.path.join(CRATE, "src"), ignore_errors=True)
     os.makedirs(os.path.join(CRATE, "src"))
     with open(os.path.join(CRATE, "Cargo.toml"), "w") as f:
         f.write('[package]\nname = "c41gen"\nversion = "0.1.0"\nedition = "2024"\n\n[workspace]\n\n'
                 '[dependencies]\ndust_dds = { path = "%s/dds" }\n\n[profile.dev]\ndebug = false\nopt-level = 1\n' % REPO)
     shutil.copyfile(os.path.join(os.path.dirname(CACHE), "harness", "Cargo.lock"), os.path.join(CRATE, "Cargo.lock"))
-    for i, src in enumerate(sources):
+    for i, src in sources:
         with open(os.path.join(CRATE, "src", "c%d.rs" % i), "w") as f:
             f.write(src + "\n")
     with open(os.path.join(CRATE, "src", "main.rs"), "w") as f:
-        f.write("#![allow(warnings)]\n" + "".join("mod c%d;\n" % i for i in range(len(sources))) + "fn main() {}\n")
-    env = {"CARGO_TARGET_DIR": os.path.join(CACHE, "target"), "RUSTFLAGS": "--cfg dust_dds_verif"}
+        f.write("#![allow(warnings)]\n" + "".join("mod c%d;\n" % i for i, _ in sources) + main_body)
+
+
+CARGO_ENV = {"CARGO_TARGET_DIR": os.path.join(CACHE, "target"), "RUSTFLAGS": "--cfg dust_dds_verif"}
+
+
+def cargo_check_batch(sources, timeout=1500):
+    """sources: list of generated Rust texts.  Returns {index: [error lines]} for those that rustc rejects,
+    or a string when cargo itself could not run."""
+    write_crate(list(enumerate(sources)))
     with Lock("cargo"):
-        rc, out = sh(["cargo", "check", "--offline", "--message-format=short"], cwd=CRATE, timeout=timeout, env=env)
+        rc, out = sh(["cargo", "check", "--offline", "--message-format=short"], cwd=CRATE, timeout=timeout, env=CARGO_ENV)
     bad = {}
     for l in out.splitlines():
         m = re.match(r"src/c(\d+)\.rs:\d+:\d+: error(\[E\d+\])?: (.*)", l)
@@ -1431,6 +1451,60 @@ def cargo_check_batch(sources, timeout=1500):
     if rc == 0 and bad:
         return "inconsistent cargo output"
     return bad
+
+
+SHOW_FN = """
+fn show(i: usize, path: &str, t: dust_dds::xtypes::dynamic_type::DynamicType<'static>) {
+    let d = t.descriptor;
+    let ms: Vec<String> = t.member_list.iter().map(|m| {
+        let m = &m.descriptor;
+        format!("{}:{}:{}:{}", m.name, m.id, m.is_key as u8, m.is_optional as u8)
+    }).collect();
+    println!("S {} {} {} {:?} {} {}", i, path, d.name, d.extensibility_kind, d.base_type.is_some() as u8, ms.join(","));
+}
+"""
+
+
+def struct_paths(items, mods=()):
+    out = []
+    for it in items:
+        if it[0] == "mod":
+            out += struct_paths(it[2], mods + (it[1],))
+        elif it[0] == "struct":
+            out.append(mods + (it[2],))
+    return out
+
+
+def describe_batch(parsed, timeout=1500):
+    """parsed: list of (index, generated text, parsed items) that rustc accepts.  Builds the crate with a main
+    that prints the dynamic type description of every generated struct and runs it.
+    Returns {index: [obs struct terms]} or a string on failure."""
+    calls = []
+    for i, _, items in parsed:
+        for p in struct_paths(items):
+            calls.append('    show(%d, "%s", <c%d::%s as dust_dds::xtypes::type_support::Type>::TYPE);\n'
+                         % (i, "::".join(p), i, "::".join(p)))
+    write_crate([(i, src) for i, src, _ in parsed], SHOW_FN + "fn main() {\n" + "".join(calls) + "}\n")
+    with Lock("cargo"):
+        rc, out = sh(["cargo", "build", "--offline", "--message-format=short"], cwd=CRATE, timeout=timeout, env=CARGO_ENV)
+    if rc != 0:
+        return "cargo build of the description printer failed: " + out[-800:]
+    rc, out = sh([os.path.join(CACHE, "target", "debug", "c41gen")], timeout=120)
+    if rc != 0:
+        return "description printer crashed: " + out[-400:]
+    obs = {}
+    for l in out.splitlines():
+        p = l.split(" ")
+        if len(p) < 6 or p[0] != "S":
+            continue
+        members = []
+        for m in (p[6].split(",") if len(p) > 6 and p[6] else []):
+            n, mid, key, opt = m.rsplit(":", 3)
+            members.append("(mkOM %s %s %s %s)" % (cs(n), cs(mid), cb(key == "1"), cb(opt == "1")))
+        obs.setdefault(int(p[1]), []).append("(mkOS %s %s %s %s %s)" % (
+            cl([cs(x) for x in p[2].split("::")]), cl([cs(x) for x in p[3].split("::")]), cs(p[4].lower()),
+            cb(p[5] == "1"), cl(members)))
+    return obs
 
 
 def extra(ctx, binary):
@@ -1484,6 +1558,46 @@ def extra(ctx, binary):
     ctx.assumptions.append("compile observation: %d generated + %d corpus/probe specifications checked by rustc against dust_dds; "
                            "%d compiled, %d rejected inside the recorded constructs" %
                            (cov["generated_cases"], cov["corpus_and_probes"], ok_expected, failed_expected))
+    # second tie: the compiled generated code prints its dynamic type descriptions
+    from vlib.core import coq_eval_cases
+    parsed = []
+    for j, i in enumerate(idx):
+        if j in res:
+            continue
+        try:
+            items = read_rust(outs[i][3:])
+        except (Bad, IndexError):
+            continue
+        if struct_paths(items):
+            parsed.append((i, outs[i][3:], items))
+    obs = describe_batch(parsed)
+    if isinstance(obs, str):
+        ctx.broken.append("description observation could not run: " + obs)
+        return
+    terms, where = [], []
+    for i, _, items in parsed:
+        terms.append("mkC41d %s %s %s" % (cl([q_pp(x) for x in batch[i][1][1]]), cl([q_item(x) for x in items]), cl(obs.get(i, []))))
+        where.append(i)
+    mb, ob, err = coq_eval_cases(ctx, CORR, "C41d", "C41d_case", terms, tag="desc")
+    if err:
+        ctx.broken.append("description correspondence evaluation failed: " + err[-600:])
+    known = known_ids(PID)
+    for j in mb[:3]:
+        ctx.broken.append("correspondence C41d: the descriptions printed by the compiled code differ from the modelled reading "
+                          "of the derive macro, e.g. %s -> %s" % (lines[where[j]], " ".join(obs.get(where[j], []))[:400]))
+    nknown = 0
+    for j, cls in ob:
+        fid = KNOWN.get(cls)
+        if fid is not None and fid in known:
+            ctx.known_seen.setdefault(fid, lines[where[j]])
+            nknown += 1
+        else:
+            ctx.violations.append(("descriptions", "type descriptions of the compiled generated code do not have the declared structure: %s -> %s"
+                                   % (lines[where[j]], " ".join(obs.get(where[j], []))[:600]),
+                                   {"case": lines[where[j]], "harness": HARNESS, "impl_output": outs[where[j]],
+                                    "descriptions": obs.get(where[j], [])}))
+    ctx.cov["description_observation"] = {"specifications": len(terms), "structs": sum(len(v) for v in obs.values()),
+                                          "reading_disagreements": len(mb), "in_known_classes": nknown}
 
 
 MANIFEST = {
